@@ -575,3 +575,19 @@ def sample_min(ast, letters=ASCII_LETTERS_DEFAULT):
     except LookupError:
         return None
     return out if ast_fullmatch(ast, out) else None
+
+
+def rep_nesting(ast):
+    """Maximal nesting depth of quantifiers (1 = no quantifier inside a quantified body)."""
+    def d(n):
+        k = n["k"]
+        if k == "rep":
+            return 1 + d(n["body"])
+        if k == "seq":
+            return max([d(i) for i in n["items"]] or [0])
+        if k == "alt":
+            return max([d(b) for b in n["branches"]] or [0])
+        if k == "group":
+            return d(n["body"])
+        return 0
+    return d(ast["body"])
